@@ -73,18 +73,27 @@ def sdl(draw):
     ret = obj_names + (["Node"] if use_iface else []) + (["U"] if use_union else []) + ["String", "Int"]
     counter = [0]
 
-    def field(prefix):
+    names: list = []
+
+    def field(prefix, name=None):
         counter[0] += 1
         args = {f"a{j}": arg_type(2, in_names) for j in range(draw(st.integers(0, 3)))}
         r = draw(st.sampled_from(ret))
         if draw(st.booleans()):
             r = f"[{r}]"
         a = f"({', '.join(f'{k}: {v}' for k, v in args.items())})" if args else ""
-        return f"{prefix}{counter[0]}{a}: {r}"
+        name = name or f"{prefix}{counter[0]}"
+        names.append(name)
+        return f"{name}{a}: {r}"
 
     lines.append("type Query { " + " ".join(field(draw(st.sampled_from(["q", "get", "list"]))) for _ in range(draw(st.integers(1, 3)))) + " }")
     if draw(st.booleans()):
-        lines.append("type Mutation { " + " ".join(field(draw(st.sampled_from(["m", "create", "get"]))) for _ in range(draw(st.integers(1, 2)))) + " }")
+        query_names = list(names)
+        mutation_fields = [field(draw(st.sampled_from(["m", "create", "get"]))) for _ in range(draw(st.integers(1, 2)))]
+        if draw(st.booleans()):
+            # the two roots are separate namespaces: a mutation may be called like a query
+            mutation_fields.append(field("m", name=draw(st.sampled_from(query_names))))
+        lines.append("type Mutation { " + " ".join(mutation_fields) + " }")
     if draw(st.integers(0, 2)) == 0:
         lines.append("type Subscription { " + " ".join(field("on") for _ in range(draw(st.integers(1, 2)))) + " }")
     return "\n".join(lines)
